@@ -39,6 +39,9 @@ Inductive xact :=
 | XFlowSet (f : nat) (v : Z)                  (* flows[f].value = v *)
 | XPause (b : nat)                            (* (latest instance of body b).pause() *)
 | XResume (b : nat)                           (* (latest instance of body b).resume(None, 0) *)
+| XHang                                       (* yield v, v = inf, nan or not a number (None, True, False, '', [], ()): the clocks of
+                                                 both modes do not re-schedule the routine ("inf = never"; the non-real-time
+                                                 ClockTask as released re-queued inf at time inf: repaired by /repo 1b31254) *)
 | XReturn.
 
 Record xprog := mkXP {
@@ -235,6 +238,7 @@ Section Exec.
     match acts with
     | [] => (st, XODone)
     | XReturn :: _ => (st, XODone)
+    | XHang :: rest => (st, XOHang rest)
     | XYield d :: rest => (st, XOYield d rest)
     | XSend lat es :: rest => continue (x_send st rid k T lat es) rest
     | XPlay b c :: rest => continue (x_play st rid k T b c) rest
